@@ -181,8 +181,8 @@ fn handwritten() -> Vec<(String, Vec<u8>)> {
 pub fn seeds(w: usize) -> Vec<(String, Vec<u8>)> {
     let mut out = vec![];
     let key = bind::key0();
-    let mut trees = families::plain(w); trees.extend(families::decode_only()); trees.extend(families::nsn());
-    let nb = trees.len() - families::decode_only().len() - families::nsn().len();
+    let mut trees = families::plain(w); trees.extend(families::decode_only()); trees.extend(families::nsn()); trees.extend(families::valued_few());
+    let nb = trees.len() - families::decode_only().len() - families::nsn().len() - families::valued_few().len();
     for (ti, m) in trees.iter().enumerate() {
         let e = if ti < nb { bind::build(m, 0) } else { bind::build_route(m, bind::Route::Decode) };
         out.push((format!("tree{ti}:{}", m.show()), e.to_cbor_data()));
